@@ -181,13 +181,13 @@ Definition long_mul (w N : Z) (fuel : nat) (self : list Z) (rhs : list Z) : res 
   let carry := 0 in (* declared without initialiser *)
   let i := 0 in
   t9' <- while_loop (R := (list Z * bool)) fuel
-    (fun '(overflow, out, carry, i) => (i <? N))
-    (fun '(overflow, out, carry, i) =>
+    (fun '(out, overflow, carry, i) => (i <? N))
+    (fun '(out, overflow, carry, i) =>
       let carry := 0 in
       let j := 0 in
       t7' <- while_loop (R := (list Z * bool)) fuel
-        (fun '(overflow, out, carry, j) => (j <? N))
-        (fun '(overflow, out, carry, j) =>
+        (fun '(out, overflow, carry, j) => (j <? N))
+        (fun '(out, overflow, carry, j) =>
           let index := (i + j) in
           if (index <? N) then (
             t1' <- arr_get self i ;;
@@ -197,34 +197,34 @@ Definition long_mul (w N : Z) (fuel : nat) (self : list Z) (rhs : list Z) : res 
             out <- arr_set out index prod ;;
             let carry := c in
             let j := (j + 1) in
-            Done (Continue (overflow, out, carry, j))
+            Done (Continue (out, overflow, carry, j))
           ) else (
             t4' <- arr_get self i ;;
             t6' <- (if (negb (t4' =? 0)) then (t5' <- arr_get rhs j ;; Done (negb (t5' =? 0))) else Done false) ;;
             if t6' then (
               let overflow := true in
-              Done (Break (overflow, out, carry, j))
+              Done (Break (out, overflow, carry, j))
             ) else (
               let j := (j + 1) in
-              Done (Continue (overflow, out, carry, j))
+              Done (Continue (out, overflow, carry, j))
             )
           ))
-        (overflow, out, carry, j) ;;
+        (out, overflow, carry, j) ;;
       match t7' with
-      | Exited (overflow, out, carry, j) =>
+      | Exited (out, overflow, carry, j) =>
           if (negb (carry =? 0)) then (
             let overflow := true in
             let i := (i + 1) in
-            Done (Continue (overflow, out, carry, i))
+            Done (Continue (out, overflow, carry, i))
           ) else (
             let i := (i + 1) in
-            Done (Continue (overflow, out, carry, i))
+            Done (Continue (out, overflow, carry, i))
           )
       | Returned t8' => Done (Return t8')
       end)
-    (overflow, out, carry, i) ;;
+    (out, overflow, carry, i) ;;
   match t9' with
-  | Exited (overflow, out, carry, i) =>
+  | Exited (out, overflow, carry, i) =>
       Done (out, overflow)
   | Returned t10' => Done t10'
   end.
@@ -362,19 +362,19 @@ Definition is_power_of_two (w N : Z) (fuel : nat) (self : list Z) : res (bool) :
   let i := 0 in
   let ones := 0 in
   t2' <- while_loop (R := bool) fuel
-    (fun '(i, ones) => (i <? N))
-    (fun '(i, ones) =>
+    (fun '(ones, i) => (i <? N))
+    (fun '(ones, i) =>
       t1' <- arr_get self i ;;
       let ones := (ones + (u_count_ones t1')) in
       if (ones >? 1) then (
         Done (Return false)
       ) else (
         let i := (i + 1) in
-        Done (Continue (i, ones))
+        Done (Continue (ones, i))
       ))
-    (i, ones) ;;
+    (ones, i) ;;
   match t2' with
-  | Exited (i, ones) =>
+  | Exited (ones, i) =>
       Done (ones =? 1)
   | Returned t3' => Done t3'
   end.
